@@ -8,6 +8,7 @@
    (3) gating: blind_sign returns only if verify_proof returned true (otherwise the Rust code panics = refusal).
    Rejection of mismatching / edited proofs: correspondence + sweep (all non-empty U for n <= 3 / 5). *)
 From ZK Require Import Cl ClArith ClSig ClMore ClGroup ClBoudot ModelLemmas ClSpok ClSpok2 ClSpok3 ClDraws ClZk.
+From ZK Require Import ClTies.
 From ZK Require Import ClUpdate.
 
 Theorem C14_cl_blind_sign_gated :
@@ -238,3 +239,30 @@ Check (C14_verify_two_vectors_reduces :
   verify_multiattr CS sg pk bases msgs' = Ok true ->
   eqm (pk_N pk) (PP bases msgs) (PP bases msgs')).
 Print Assumptions C14_verify_two_vectors_reduces.
+
+(* fix 56a5ca8: in an accepted issuance proof every per-attribute range proof is about the commitment of its opening proof *)
+Theorem C14_zkpok_loop_ties_range_proofs :
+  forall CS BP pk bases U pmi rpmi,
+  zkpok_verify_loop CS BP pk bases U pmi rpmi = Ok true ->
+  Forall2 (fun pv rp => c_value (pv_com pv) = bd_E rp) (firstn (length U) pmi) (firstn (length U) rpmi).
+Proof. exact zkpok_loop_ties_range_proofs. Qed.
+Check (C14_zkpok_loop_ties_range_proofs :
+  forall CS BP pk bases U pmi rpmi,
+  zkpok_verify_loop CS BP pk bases U pmi rpmi = Ok true ->
+  Forall2 (fun pv rp => c_value (pv_com pv) = bd_E rp) (firstn (length U) pmi) (firstn (length U) rpmi)).
+Print Assumptions C14_zkpok_loop_ties_range_proofs.
+
+(* finding F15 on the faithful model: the per-attribute pairs and (proof_r, range_proof_r) of ANY other accepted issuance proof
+   under the same key, bases and hidden positions -- made for any other commitment -- are accepted in place of the proof's own *)
+Theorem C14_zkpok_subproofs_untied :
+  forall CS BP p C Ct pk bases ck U q,
+  zkpok_verify CS BP p C Ct pk bases ck U = Ok true ->
+  forall C' Ct' ck', zkpok_verify CS BP q C' Ct' pk bases ck' U = Ok true ->
+  zkpok_verify CS BP (zk_with_subproofs p (zk_pmi q) (zk_rpmi q) (zk_pr q) (zk_rpr q)) C Ct pk bases ck U = Ok true.
+Proof. exact zkpok_subproofs_untied. Qed.
+Check (C14_zkpok_subproofs_untied :
+  forall CS BP p C Ct pk bases ck U q,
+  zkpok_verify CS BP p C Ct pk bases ck U = Ok true ->
+  forall C' Ct' ck', zkpok_verify CS BP q C' Ct' pk bases ck' U = Ok true ->
+  zkpok_verify CS BP (zk_with_subproofs p (zk_pmi q) (zk_rpmi q) (zk_pr q) (zk_rpr q)) C Ct pk bases ck U = Ok true).
+Print Assumptions C14_zkpok_subproofs_untied.
